@@ -17,6 +17,8 @@ node  = {"t":"lit","s":text}
       | {"t":"choose","pick":0|1|2,"kids":[[node],[node]]}   <py:choose> when/otherwise
       | {"t":"def","name":f,"param":x,"kids":[node]}          <py:def function="f(x)">
       | {"t":"match","name":n,"kids":[node]}                   reserved
+      | {"t":"cdata","s":text}                                 <![CDATA[text]]> written by the template author (literal; oracle only:
+                                                               the Lean model has no CDATA events, such a case has no model counterpart)
       an "el" whose name is script/style (RAW) has no py:content and at most one literal child without `<`, `&`;
       static elements (literal attributes and text only) are written two or three times in a row or
       spread over a body, so that later events of every kind are served from the serializer's cache
@@ -52,6 +54,7 @@ VOID = ['br', 'hr', 'img']
 RAW = ['script', 'style']
 RAW_TEXTS = ['var a = 1;', 'var a = 1;', 'if (a > 1) { f("x") }', 'p > b { color: red }', ' ', 'x', '\n  var b = 2;  \n\n',
              'a = b > c ? "1" : \'2\';']
+CDATA_TEXTS = ['x < y & z', '<b>', ']] >', 'a', '&amp;', ' \n', '</root>', '"\'']
 RAW_ATTRS = [[], [], [['type', 'text/javascript']], [['type', 'text/css'], ['title', 'a"b']]]
 ATTRS = ['title', 'class', 'href', 'id', 'alt', 'data-x', 'lang', 'name', 'value', 'style', 'onclick']
 KWATTRS = {'title': 'title', 'class_': 'class', 'href': 'href', 'id': 'id', 'data_x': 'data-x', 'alt': 'alt'}
@@ -441,6 +444,10 @@ class Spec(object):
             return [T(n['s'])]
         if t == 'site':
             return self.expr_toks(n['e'], env)
+        if t == 'cdata':
+            # xml / xhtml keep the section (an independent parser reports where it starts); html drops the
+            # markers and escapes the text
+            return ([['CDATA']] if self.case['method'] != 'html' else []) + [T(n['s'])]
         if t == 'el':
             if 'for' in n:
                 items = self.iter_items(n['for']['e'], env)
@@ -519,6 +526,7 @@ def cache_shapes(toks):
     shapes = set()
     nraw = 0
     armed = False                      # a cached END of a raw-text element, no END since
+    cdata_seen = False
     for i, t in enumerate(toks):
         if t[0] == 'S':
             empty = i + 1 < len(toks) and toks[i + 1][0] == 'E'
@@ -529,7 +537,14 @@ def cache_shapes(toks):
             if i > 0 and toks[i - 1][0] == 'S':
                 continue               # part of an EMPTY event
             key = ('E', t[1])
+        elif t[0] != 'T':
+            if t[0] == 'CDATA':
+                shapes.add('cdata-section')
+                cdata_seen = True
+            continue
         else:
+            if cdata_seen:
+                shapes.add('text-after-cdata-section')
             key = ('T', t[1])
             if armed:
                 shapes.add('text-after-cached-raw-END')
@@ -782,6 +797,8 @@ def node_src(n, nxt=None):
     t = n['t']
     if t == 'lit':
         return lit_src(n['s'])
+    if t == 'cdata':
+        return '<![CDATA[' + n['s'] + ']]>'
     if t == 'site':
         if n['form'] == 'replace-attr':
             return '<span py:replace="%s">old</span>' % expr_src(n['e'])
@@ -1002,10 +1019,7 @@ class Gen(object):
         items = []
         for name in rng.sample(ATTRS, rng.randrange(1, 3)):
             v = rand_scalar(rng, self.method, 'attr', allow_safe=False)
-            # inside the hypothesis of attrs_site_partial: a value that is blank after trimming removes the
-            # attribute (finding C01-attrs-blank-dropped), so blank values are not generated here
-            if v['k'] in ('s', 'o') and not v['str' if v['k'] == 'o' else 's'].strip():
-                v = {'k': 's', 's': 'x'} if v['k'] == 's' else {'k': 'o', 'str': 'x', 'html': None}
+            # blank values included: after fix ce82919 only None removes an attribute (C01-attrs-blank-dropped)
             items.append([name, self.newvar(v)])
         form = rng.choice(['dict', 'list', 'var'])
         pa = {'form': form, 'items': items}
@@ -1081,6 +1095,8 @@ class Gen(object):
         if r < 0.80:
             if rng.random() < 0.07:
                 return self.raw_el()
+            if rng.random() < 0.04:
+                return {'t': 'cdata', 's': rng.choice(CDATA_TEXTS)}
             if rng.random() < 0.12:
                 n = {'t': 'el', 'name': rng.choice(VOID), 'attrs': [], 'kids': []}
             else:
@@ -1370,6 +1386,9 @@ def validate(case):
             if t == 'lit':
                 _req(isinstance(n['s'], str) and n['s'] != '' and '$' not in n['s'] and '\r' not in n['s']
                      and xml_char_only(n['s']) == n['s'], 'literal')
+            elif t == 'cdata':
+                _req(isinstance(n['s'], str) and n['s'] != '' and '$' not in n['s'] and '\r' not in n['s']
+                     and ']]>' not in n['s'] and xml_char_only(n['s']) == n['s'], 'cdata')
             elif t == 'site':
                 _req(n['form'] in ('brace', 'dollar', 'replace-attr', 'replace-el'), 'site form')
                 text_expr(n['e'], bound)
@@ -1506,8 +1525,6 @@ def in_stated_domain(case):
         for s in _strings_of(v):
             if fit(s, method, 'attr' if name in attr_vars else 'text') != s:
                 return False
-            if name in blank_sensitive and not s.strip():
-                return False
     return True
 
 
@@ -1609,6 +1626,10 @@ def _prefixes():
     out.append(('repeated-elements', lambda t, s: [E('b', [L('x')], [('title', 't"<')]), E('b', [L('x')], [('title', 't"<')]),
                                                    E('br', []), E('br', []), E('i', []), E('i', [])] + t))
 
+    C = lambda s: {'t': 'cdata', 's': s}
+    out.append(('cdata-then-site', lambda t, s: [C('x < y & z')] + t))
+    out.append(('two-cdata-then-p', lambda t, s: [C('a'), E('i', []), C('a'), E('p', t)]))
+
     def same_text(t, s):
         if not s or '$' in s or '\r' in s or xml_char_only(s) != s:
             return None
@@ -1642,8 +1663,6 @@ def matrix_cases(method, strip, impl):
             vals += [{'k': 'm', 's': m['s'], 'toks': m['toks']} for m in SAFE_MARKUP]
             vals += [{'k': 'o', 'str': '<s>', 'html': SAFE_MARKUP[0]}]
         for v in vals:
-            if name.startswith('pyattrs') and v['k'] in ('s', 'o') and not (v.get('s', v.get('str', 'x'))).strip():
-                continue    # finding C01-attrs-blank-dropped
             tmpl, data = mk(v)
             cases.append({'mode': 'template', 'tmpl': tmpl, 'data': data, 'method': method, 'strip': strip, 'impl': impl,
                           })
@@ -1693,8 +1712,6 @@ def exhaustive_cases(method, strip, impl, maxlen, part, nparts):
             v = {'k': 's', 's': ''.join(tup)}
             for name in EXHAUSTIVE_SITES:
                 where, mk = sites[name]
-                if name.startswith('pyattrs') and not v['s'].strip():
-                    continue
                 tmpl, data = mk(v)
                 cases.append({'mode': 'template', 'tmpl': tmpl, 'data': data, 'method': method, 'strip': strip, 'impl': impl})
     return cases
